@@ -46,6 +46,11 @@ func transformReqs(
 			continue
 		}
 		for _, n := range names {
+			// Several old requirements may name the same project at different versions. When
+			// they are passed through unchanged, each name keeps its own version.
+			if cur, ok := newReqs[n]; ok && cur.Version == root.Requirements[n].Version {
+				continue
+			}
 			newReqs[n] = versionRequirement(v)
 		}
 	}
